@@ -25,7 +25,7 @@ Count(path, idx) == LET RECURSIVE C(_) C(j) == IF j = 0 THEN 0 ELSE (IF path[j][
 Corr(path) == LET RECURSIVE C(_) C(j) == IF j = 0 THEN 0 ELSE path[j][2] + C(j - 1) IN C(Len(path))
 
 Bump(r, v) == TLCSet(r, TLCGet(r) + v)
-Init == i = 1 /\ TLCSet(1, 0) /\ TLCSet(2, 0) /\ TLCSet(3, 0) /\ TLCSet(4, 0) /\ TLCSet(5, 0) /\ TLCSet(6, 0) /\ TLCSet(7, 0) /\ TLCSet(8, 0) /\ TLCSet(9, 0)
+Init == i = 1 /\ TLCSet(1, 0) /\ TLCSet(2, 0) /\ TLCSet(3, 0) /\ TLCSet(4, 0) /\ TLCSet(5, 0) /\ TLCSet(6, 0) /\ TLCSet(7, 0) /\ TLCSet(8, 0) /\ TLCSet(9, 0) /\ TLCSet(10, 0)
 Step ==
   /\ i <= Len(Rec)
   /\ LET e == Rec[i] IN
@@ -38,6 +38,7 @@ Step ==
           /\ Bump(3, IF Count(o.path, 1) > 0 THEN 1 ELSE 0)      \* events with a maxed quotient estimate
           /\ Bump(4, IF Corr(o.path) > 0 THEN 1 ELSE 0)          \* events with a 3-by-2 correction
           /\ Bump(6, IF Ct(e) THEN 1 ELSE 0)
+          /\ Bump(10, IF Vt(e) /\ Count(o.path, 5) > 0 THEN 1 ELSE 0) \* vartime: add-back visible in the top limb only
           /\ IF o.q = e.q /\ o.r = e.r THEN TRUE ELSE Bump(5, 1) /\ PrintT(<<"SPEC-DRIFT", i>>)
      ELSE IF Lb(e) THEN
        LET o == K!DivRemLimb(K!Words(e.n, e.nb \div 64), e.d)
@@ -48,5 +49,5 @@ Step ==
      ELSE TRUE
   /\ i' = i + Stride
 Spec == Init /\ [][Step]_i
-Done == PrintT(<<"PATHS", TLCGet(1), TLCGet(2), TLCGet(3), TLCGet(4), TLCGet(5), TLCGet(6)>>) /\ PrintT(<<"LIMBPATHS", TLCGet(7), TLCGet(8), TLCGet(9)>>)
+Done == PrintT(<<"PATHS", TLCGet(1), TLCGet(2), TLCGet(3), TLCGet(4), TLCGet(5), TLCGet(6)>>) /\ PrintT(<<"LIMBPATHS", TLCGet(7), TLCGet(8), TLCGet(9)>>) /\ PrintT(<<"TOPONLY", TLCGet(10)>>)
 =============================================================================
